@@ -15,6 +15,7 @@ import (
 	"time"
 
 	"github.com/taskctl/taskctl/pkg/task"
+	"github.com/taskctl/taskctl/pkg/variables"
 )
 
 type c12Scenario struct {
@@ -32,6 +33,38 @@ func TestVerifReplayC12(t *testing.T) {
 	k, times := int(sc.Args[0]), int(sc.Args[1])
 	fmt.Println("REPLAY-CRASH-MEANS-REPRODUCED (a panic of the process below is the violation)")
 	var bad []string
+	if len(sc.Args) >= 5 && sc.Args[3] >= 2 {
+		// two concurrent Cancel calls while a run winds down through its context's after command
+		dir := t.TempDir()
+		trace := dir + "/after-started"
+		ectx := NewExecutionContext(nil, "", variables.NewVariables(), nil, nil, nil, []string{"date +%s%N > " + trace})
+		r, _ := NewTaskRunner(WithContexts(map[string]*ExecutionContext{"ctx": ectx}))
+		r.Stdout, r.Stderr = &strings.Builder{}, &strings.Builder{}
+		tk := task.FromCommands("sleep 0.6")
+		tk.Name = "t0"
+		tk.Context = "ctx"
+		runDone := make(chan struct{})
+		go func() { r.Run(tk); close(runDone) }()
+		time.Sleep(100 * time.Millisecond)
+		go r.Cancel()
+		time.Sleep(50 * time.Millisecond)
+		secondReturned := make(chan int64, 1)
+		go func() { r.Cancel(); secondReturned <- time.Now().UnixNano() }()
+		var ret int64
+		select {
+		case ret = <-secondReturned:
+		case <-time.After(5 * time.Second):
+			bad = append(bad, "second concurrent Cancel did not return within 5s")
+		}
+		<-runDone
+		raw, _ := os.ReadFile(trace)
+		var started int64
+		fmt.Sscan(strings.TrimSpace(string(raw)), &started)
+		fmt.Printf("REPLAY: second Cancel returned at %d, context after command started at %d\n", ret, started)
+		if ret != 0 && started > ret {
+			bad = append(bad, "a command (the context's after hook) started after a Cancel call had returned")
+		}
+	}
 	for _, when := range []string{"before", "during", "after"} {
 		r, _ := NewTaskRunner()
 		r.Stdout, r.Stderr = &strings.Builder{}, &strings.Builder{}
